@@ -340,8 +340,23 @@ func mfGRPCProviderPL(mode string, data []byte, passes, limit int) func() (core.
 		if err := afero.WriteFile(fs, "/ammo", data, 0o644); err != nil {
 			machinery("%v", err)
 		}
-		return grpcjson.NewProvider(fs, grpcjson.Config{File: "/ammo", Passes: passes, Limit: limit, ContinueOnError: mode == "continue"}), nil
+		return grpcjson.NewProvider(fs, grpcjson.Config{File: "/ammo", Passes: passes, Limit: limit, ContinueOnError: mode == "continue", MaxAmmoSize: mfGRPCBuf}), nil
 	}
+}
+
+// max_ammo_size of the grpc/json provider for the case being run (jobs run one at a time in a child)
+var mfGRPCBuf int
+
+func mfBufOption(c mfCase) int {
+	if c.Cls != "bufline" {
+		return 0
+	}
+	b, _ := c.Arg[1].(string)
+	v, ok := map[string]int{"default": 0, "tiny": 50, "large": 100000, "neg": -5}[b]
+	if !ok {
+		machinery("unknown buffer option %q", b)
+	}
+	return v
 }
 
 // file passes requested from the provider (Malformed!NPasses)
@@ -379,7 +394,9 @@ func mfRunAmmoCase(c mfCase) mfLine {
 	passes := mfPasses(c)
 	var r mfRunResult
 	if c.Format == "grpcjson" {
+		mfGRPCBuf = mfBufOption(c)
 		r = mfRunProvider(mfGRPCProviderPL(c.Mode, data, passes, mfLimit(c)), mfProjectGRPC, 0)
+		mfGRPCBuf = 0
 	} else {
 		r = mfRunProvider(mfHTTPProviderHPL(c.Format, c.Mode, data, mfConfigHeaders(c.Cls), passes, mfLimit(c)), mfProjectHTTP, 0)
 	}
